@@ -119,6 +119,11 @@ func RefAlgos() refcodec.Algos {
 // AlgoStats counts uses and discipline violations of the instrumented
 // (de)compressors of one algorithm.
 type AlgoStats struct {
+	// FailOver > 0: the compressor refuses inputs longer than this many bytes -
+	// its Close returns an error and nothing is written (a block compressor
+	// with an input cap; Compressor.Close may fail like any io.Closer).
+	FailOver       int32
+	Refusals       int64
 	Compressions   int64
 	Decompressions int64
 	Violations     int64
@@ -201,6 +206,10 @@ func (c *zzCompressor) Close() error {
 		return nil
 	}
 	c.open = false
+	if cap := atomic.LoadInt32(&c.stats.FailOver); cap > 0 && c.buf.Len() > int(cap) {
+		atomic.AddInt64(&c.stats.Refusals, 1)
+		return fmt.Errorf("%s: input of %d bytes is over this compressor's cap of %d", c.name, c.buf.Len(), cap)
+	}
 	atomic.AddInt64(&c.stats.Compressions, 1)
 	_, err := c.w.Write(algoEncode(c.name, c.buf.Bytes()))
 	return err
